@@ -325,7 +325,12 @@ def _structured_subject(ctx, d, pgpy, key, sig, sigbytes, refsubj, sm, pgpy_only
         fields = [('uid' if 'uid' in refsubj else 'ua', idx)]
         fields.append(('primary', 0))
     elif 'subkey' in refsubj:
-        idx = [i for i, p in enumerate(pkts) if p.tag in (14, 7) and RK.parse_pub(p.body)['pubbody'] == refsubj['subkey']][0]
+        idx = [i for i, p in enumerate(pkts) if p.tag in (14, 7) and RK.parse_pub(p.body)['pubbody'] == refsubj['subkey']]
+        if not idx:
+            # this candidate owner does not carry the subject subkey (kinds that build their own key): nothing to present in this form
+            ctx.observe('structured_subject_owner_without_the_subkey')
+            return
+        idx = idx[0]
         fields = [('subkey', idx), ('primary', 0)]
     else:
         fields = [('primary', 0)]
